@@ -435,6 +435,9 @@ func (c *Client) GetBlock(point pcommon.Point) (ledger.Block, error) {
 			return nil, protocol.ErrProtocolShuttingDown
 		}
 		block = b
+	case <-c.batchDoneChan:
+		c.releaseBusy(token)
+		return nil, errors.New("block-fetch: batch ended without a block")
 	case <-protocolDone:
 		c.releaseBusy(token)
 		return nil, protocol.ErrProtocolShuttingDown
@@ -447,6 +450,9 @@ func (c *Client) GetBlock(point pcommon.Point) (ledger.Block, error) {
 		// BatchDone was processed successfully
 		c.releaseBusy(token)
 		return block, nil
+	case <-c.blockChan:
+		c.releaseBusy(token)
+		return nil, errors.New("block-fetch: more than one block for a single-block request")
 	case <-protocolDone:
 		// Shutdown while waiting for BatchDone
 		c.releaseBusy(token)
